@@ -23,6 +23,7 @@ from pyvc.unit import unit
 from pyvc import core
 
 LEVEL = "other"
+STANDIN_ALWAYS_THOROUGH = True      # its large bound takes seconds: used at both tiers
 EXPLANATION = ("MIXED. check_xsrf_cookie decided by exhaustive case analysis on the real method (token source x decoded token x cookie secret): it passes exactly "
                "when the presented token decodes to a non-empty secret equal to the cookie's, else HTTPError 403 and nothing else, form field before X-Xsrftoken "
                "before X-Csrftoken; _decode_xsrf_token returns a triple and never raises whatever its parsing steps do (each step stubbed to fail in turn); "
